@@ -159,6 +159,14 @@ class ModelFS:
     def p(self, path):
         return str(path)
 
+    def count_files(self):
+        """open descriptors that are not index connections"""
+        n = 0
+        for q in self.open_fds.values():
+            if not q.endswith('packs.idx'):
+                n += 1
+        return n
+
 
 class Handle:
     """CPython buffered file over a model inode.
@@ -177,7 +185,7 @@ class Handle:
         fs.fd_counter += 1
         self.fd = 1000 + fs.fd_counter
         fs.open_fds[self.fd] = path
-        fs.max_open = max(fs.max_open, len(fs.open_fds))
+        fs.max_open = max(fs.max_open, fs.count_files())
 
     def __enter__(self):
         return self
@@ -555,15 +563,30 @@ class Result(list):
 
 
 class ModelDB:
-    def __init__(self, fs):
+    def __init__(self, fs, path='/vroot/c/packs.idx'):
         self.fs = fs
+        self.path = path
         self.versions = [[]]  # committed snapshots (list of row dicts)
         self.next_id = 1
 
 
 class Engine:
+    """SQLAlchemy engine of one session: the SQLite connection (a descriptor on packs.idx) is opened at the first
+    statement, survives ``session.close()`` in the pool, and is closed only by ``dispose()``."""
+
+    def __init__(self, fs=None, path='packs.idx'):
+        self.fs, self.path, self.fd = fs, path, None
+
+    def connect(self):
+        if self.fs is not None and self.fd is None:
+            self.fs.fd_counter += 1
+            self.fd = 7000 + self.fs.fd_counter
+            self.fs.open_fds[self.fd] = self.path
+
     def dispose(self):
-        pass
+        if self.fs is not None and self.fd is not None:
+            self.fs.open_fds.pop(self.fd, None)
+            self.fd = None
 
 
 class ModelSession:
@@ -572,9 +595,10 @@ class ModelSession:
         self.snap = None  # index of pinned version
         self.rows = None  # working copy when in txn
         self.dirty = False
-        self.bind = Engine()
+        self.bind = Engine(db.fs, db.path)
 
     def _begin(self):
+        self.bind.connect()
         if self.rows is None:
             self.snap = len(self.db.versions) - 1
             self.rows = [dict(r) for r in self.db.versions[self.snap]]
@@ -897,7 +921,7 @@ def install(fs, dbs, C, U):
         if path not in dbs:
             if not create:
                 raise FileNotFoundError(path)
-            dbs[path] = ModelDB(fs)
+            dbs[path] = ModelDB(fs, path)
             fs.files[path] = Node()
         return ModelSession(dbs[path])
 
@@ -999,3 +1023,18 @@ class MemStream:
         r = self.data[self.pos : self.pos + n]
         self.pos = self.pos + n
         return r
+
+
+class ShortStream(MemStream):
+    """io.RawIOBase contract: a read may return fewer bytes than asked (but at least one while data remains).  The
+    first read returns at most ``cut`` bytes."""
+
+    def __init__(self, data, cut):
+        MemStream.__init__(self, data)
+        self.cut = cut
+
+    def read(self, n=-1):
+        if self.cut > 0 and (n is None or n < 0 or n > self.cut):
+            n = self.cut
+        self.cut = 0
+        return MemStream.read(self, n)
